@@ -130,3 +130,8 @@ package xbus
 //@   ensures result.Self == 112 && result.Peer == 112 && result.SelfName == "bus" && result.PeerName == "bus"
 //@
 // ---- end generated Info contracts ----
+
+// ---- RemovePipe: the pipe leaves the map and its close channel is closed (round 7b) ----
+//@ func (*socket).RemovePipe
+//@   before call:delete#1 assert arg0 == s.pipes && held(s.Mutex)
+//@   before call:close#1 assert arg0 == p.closeQ
